@@ -1,10 +1,28 @@
-"""C01 — configuration of the check (deductive tier under construction)."""
+"""C01 — Cascade walk: each live parent exactly once, only after all its live children."""
 PROPERTY = "C01"
 LEVEL = "other"
-CONTRACT_MODULES = ["contracts.specfuns"]
-FUNCTIONS = []
-LEMMAS = []
+CONTRACT_MODULES = ["contracts.specfuns", "contracts.lemmas_desc", "contracts.pyramid", "contracts.parallel", "contracts.walk"]
+FUNCTIONS = [
+    "toasty.pyramid.Pyramid.walk",
+    "toasty.pyramid.Pyramid._walk_serial",
+    "toasty.pyramid.Pyramid._walk_parallel",
+    "toasty.pyramid._mp_walk_worker",
+]
+LEMMAS = ["desc_child_step", "desc_child_pair", "desc_siblings_disjoint", "desc_levels", "desc_transitive", "desc_root"]
 SLOW = ()
-TRUSTED_BASE = []
-ASSUMPTIONS = []
-EXPLANATION = "bounded run-time tier only so far"
+TRUSTED_BASE = [
+    "pyvc VC generator (python subset semantics, DESIGN.md 2.2); z3/cvc5",
+    "multiprocessing Queue/Event/Process contracts (DESIGN.md 3.4): each put delivered to at most one get; a get may "
+    "time out whenever no item is visible; a completion report the dispatcher receives is for a released tile not reported before "
+    "(worker guarantee, proved on _mp_walk_worker, composed with the queue contract)",
+    "definition of liveness used by the dispatcher invariant: a live tile is in scope; the parent (below the apex) of a live tile is live",
+]
+ASSUMPTIONS = [
+    "no scheduler fairness and no termination ('then returns') is assumed or proved: liveness is outside this technique; "
+    "the bounded tier watches real runs under a watchdog",
+    "the preparation pass of _walk_parallel is replaced by an ASSUMED summary (seeded tiles, pre-readied bits); it is "
+    "checked on real runs by the bounded tier",
+]
+EXPLANATION = ("Dispatcher invariant (release a parent exactly when all its live children are reported, never twice, exit "
+               "only at the apex, no KeyError) proved preserved for an arbitrary next report or time-out; worker guarantee "
+               "and serial callback rule proved; preparation pass and termination are bounded.")
